@@ -125,6 +125,12 @@ def group_cfgs(seed):
         {"decoupled": "flip"},
         {"bias_corr": "flip"},
         {"dampening": 0.25, "nesterov": "flip"},
+        # options that are usually global
+        {"max_dim": 2},
+        {"merge": "flip"},
+        {"inv_root_override": 2},
+        {"graft": ["sgd"]},
+        {"max_dim": 1024, "inv_root_override": [1, 2, 3], "eps": 1e-2},
     ]
     for top in (
         dict(betas=[0.5, 0.5], beta3=0.25, momentum=0.5, wd=0.5, graft=["adam", 0.5, 1e-1], start=2),
@@ -196,7 +202,8 @@ def hist_list(part, depth, nparams, nmask=3):
         return [[["step", m] for m in h] for h in itertools.product(masks, repeat=depth)], ["step", masks[0]]
     if part == "d":
         masks = [[1] * nparams, [1] + [0] * (nparams - 1)]
-        edits = [["set", 0, "lr", 0.125], ["set", 0, "wd", 0.25], ["set", 0, "momentum", 0.25]]
+        # lr 0: a warm-up schedule starting from zero - state (moments, momentum, step) still advances
+        edits = [["set", 0, "lr", 0.125], ["set", 0, "wd", 0.25], ["set", 0, "momentum", 0.25], ["set", 0, "lr", 0.0]]
         hs = []
         for h in itertools.product(masks, repeat=depth):
             steps = [["step", m] for m in h]
